@@ -51,7 +51,7 @@ Proof. exact ploop_catches_up. Qed.
 Definition ex_defs : defs := [(0%nat, PDef 1 None false 0 false 0 0 0 [(0%nat, TaskDef [] false false 0 0)])].
 Example C11_ex_graceful :
   let s := exec (init ex_defs) [EvSchedule 0 VNone 0; EvSchedule 0 VNone 0; EvIterBegin 0; EvVisit 0 0; EvRunBegin 0 0; EvShutdownBegin;
-                                EvShutdownReturn; EvSchedule 0 VNone 0; EvRunEnd 0 0 OutOk; EvIterBegin 0; EvVisit 0 0; EvSchedReturn 0;
+                                EvShutdownReturn; EvSchedule 0 VNone 0; EvRunEnd 0 0 OutOk; EvNotify 0 0; EvIterBegin 0; EvVisit 0 0; EvSchedReturn 0;
                                 EvShutdownReturn] in
   ((fun j => (j_completed j, j_canceled j)) <$> st_jobs s, st_shutg s, length <$> st_store s) = ([(true, false); (false, true)], None, Some 2%nat).
 Proof. vm_compute. done. Qed.
